@@ -21,6 +21,7 @@ func kernelsC13(thorough bool) ([]string, []layera.Kernel) {
 	stub := []string{"github.com/jmattheis/goverter/method.Parse", "(*github.com/jmattheis/goverter/pkgload.PackageLoader).GetOne", "(*github.com/jmattheis/goverter/pkgload.PackageLoader).GetMatching"}
 	return []string{"xtype", "builder", "pkgload", "config", "enum", "namer", "comments"}, []layera.Kernel{
 		{Name: "K7.specgroup", Pkg: "comments", Harness: "VerifHarness_C19_Group", Unwind: 64},
+		{Name: "K7.nomarker", Pkg: "comments", Harness: "VerifHarness_C19_NoMarker", Unwind: 64},
 		{Name: "K9.typecode", Pkg: "xtype", Harness: "VerifHarness_C13_TypeCode", Unwind: 16},
 		{Name: "K9.recursivetypes", Pkg: "xtype", Harness: "VerifHarness_C13_RecursiveTypes", Unwind: 64, MaxDepth: 200, LoopsBounded: true},
 		{Name: "K9.enumlookup", Pkg: "xtype", Harness: "VerifHarness_C13_EnumLookup", Unwind: 16},
